@@ -53,6 +53,8 @@ def replay(case) -> dict:
         # (Sampling.tla, Expect): such cases stay on the single loader, whose orientation is exact
         ldr_kind = "single"
     dtype = ("float32", "float64")[(h // 72) % 2]
+    # where the box shape comes from: the constructor; the call, overriding a SMALLER default; the call, no default at all
+    omode = ("ctor", "override", "call_only")[(h // 144) % 3]
     img, ref = _tomo(tshape, kind, dtype)
     flat = ref.ravel()
     shape = tuple(cfg["shape"])
@@ -60,32 +62,34 @@ def replay(case) -> dict:
     rot = Rotation.from_matrix(np.array([cfg["R"]], dtype=float))
     mole = Molecules((pos_px * scale)[None, :], rot)
     desc = dict(order=cfg["order"], cs=cfg["cs"], shape=list(shape), fam=cfg["fam"], entry=entry, image=kind, scale=scale,
-                P2=cfg["P2"], loader=ldr_kind, dtype=dtype)
+                P2=cfg["P2"], loader=ldr_kind, dtype=dtype, shape_from=omode)
     failures = []
     try:
         sub2 = None
+        okw = {} if omode == "ctor" else dict(output_shape=shape)
+        ckw = dict(output_shape=shape) if omode == "ctor" else (dict(output_shape=(2, 2, 2)) if omode == "override" else {})
         if ldr_kind == "single":
-            loader = SubtomogramLoader(img, mole, order=cfg["order"], scale=scale, output_shape=shape, corner_safe=cfg["cs"])
+            loader = SubtomogramLoader(img, mole, order=cfg["order"], scale=scale, corner_safe=cfg["cs"], **ckw)
         else:
             # two tomograms of the same shape, a molecule at the same pose in each: row 0 must come from the first
             # tomogram, row 1 from the second (which is the first one + 5000)
             from acryo import BatchLoader
 
             img2, _ = _tomo(tshape, kind, dtype, offset=5000.0)
-            loader = BatchLoader(order=cfg["order"], scale=scale, output_shape=shape, corner_safe=cfg["cs"])
+            loader = BatchLoader(order=cfg["order"], scale=scale, corner_safe=cfg["cs"], **ckw)
             loader.add_tomogram(img, mole)
             loader.add_tomogram(img2, mole.copy())
         if entry == "load_i":
-            sub = loader.load(0)
-            sub2 = loader.load(1) if ldr_kind == "batch2" else None
+            sub = loader.load(0, **okw)
+            sub2 = loader.load(1, **okw) if ldr_kind == "batch2" else None
         elif entry == "asnumpy":
-            both = loader.asnumpy()
+            both = loader.asnumpy(**okw)
             sub, sub2 = both[0], (both[1] if ldr_kind == "batch2" else None)
         elif entry == "load_iter":
-            both = list(loader.load_iter())
+            both = list(loader.load_iter(**okw))
             sub, sub2 = both[0], (both[1] if ldr_kind == "batch2" else None)
         else:
-            both = loader.construct_dask().compute()
+            both = loader.construct_dask(**okw).compute()
             sub, sub2 = both[0], (both[1] if ldr_kind == "batch2" else None)
         err = None
     except SubvolumeOutOfBoundError as e:
@@ -147,7 +151,7 @@ def run(rep: engine.Report, tier: str, seed: int):
     # drop interior cases in which the rule fixes no voxel at all (e.g. order 0 between grid points)
     useful = [c for c in cases if c["cfg"]["fam"] == "boundary" or any(c["expect"])]
     for i, c in enumerate(useful):
-        c["_h"] = (i * 7919 + seed) % 144
+        c["_h"] = (i * 7919 + seed) % 432
     budget = 4000 if tier == "quick" else len(useful)
     sel = engine.stratified_sample(useful, _stratum, budget, seed)
     rep.exhaustive = len(sel) == len(useful)
